@@ -6,6 +6,7 @@ import Rl.Spec.OracleNav
 import Rl.Spec.OracleSearch
 import Rl.Spec.OracleComplete
 import Rl.Spec.OracleKillUndo
+import Rl.Spec.OracleDoc
 namespace Rl.Drv.Ed
 open Rl Rl.Wire Rl.Spec
 
@@ -16,6 +17,14 @@ def handle (tbl : CharTable) (target : String) (f : List String) (impl : String)
     match parseImpl impl with
     | none => pure (model, if impl == "" then "-" else "fail:unparsable-implementation-observation")
     | some o =>
+      if target == "ed01cov" then
+        -- by hand only: how many of the callbacks the C01 oracle actually judged
+        let ctx : DocCtx :=
+          { S := uaxSeg (Rl.Drv.Editor.clsOf tbl), U := Rl.Drv.Editor.udataOf tbl, binds := cfg.binds,
+            histEmpty := cfg.hist.isEmpty, hasCompleter := cfg.hasCompleter, validator := cfg.validator }
+        let toks := ((f.drop 8).mapM Rl.Drv.Keys.parseHex).getD []
+        pure (model, s!"cov:{(oracleC01Cov ctx toks o).2}/{o.cbs.length}")
+      else
       let v : OVerdict :=
         if target == "ed17" then oracleC17 o
         else if target == "ed13" then firstFail [oracleC17 o, oracleC13 cfg.validator o]
@@ -23,6 +32,12 @@ def handle (tbl : CharTable) (target : String) (f : List String) (impl : String)
         else if target == "ed08" then firstFail [oracleC17 o, oracleC08 cfg.hist o]
         else if target == "ed06" then firstFail [oracleC17 o, oracleC06 o]
         else if target == "ed05" then firstFail [oracleC17 o, oracleC05 cfg.hasCompleter (!cfg.hist.isEmpty) o]
+        else if target == "ed01" then
+          let ctx : DocCtx :=
+            { S := uaxSeg (Rl.Drv.Editor.clsOf tbl), U := Rl.Drv.Editor.udataOf tbl, binds := cfg.binds,
+              histEmpty := cfg.hist.isEmpty, hasCompleter := cfg.hasCompleter, validator := cfg.validator }
+          let toks := ((f.drop 8).mapM Rl.Drv.Keys.parseHex).getD []
+          firstFail [oracleC17 o, oracleC01 ctx toks o]
         else if target == "ed14" then firstFail [oracleC17 o, oracleC14 cfg.completer (!cfg.listCompletion) o]
         else none
       pure (model, verdictStr v)
